@@ -5,12 +5,22 @@ spec -> code : TLC explores Sampling.tla (span forests x sampler terms x parent 
                harness/c09 replays each edge on a real TracerProvider (scripted IDGenerator,
                scripted custom Sampler, simple + batch + plain span processors) and compares
                the projection (SpanContext, IsRecording, processors, exporters) with the
-               spec's successor state.
+               spec's successor state.  The process holds 1..NProv providers (NewProv at any
+               time); parent contexts carry any trace-flags byte (sampled = low bit); rep 3
+               replays the edges with the SDK's DEFAULT ID generators (trace-ID class by
+               rejection), so uniqueness over the union of providers is bound to the real
+               generator.  A "shared stream" variant of the generator model is refuted by TLC
+               (model-level demonstration that the uniqueness invariant is not vacuous).
 code -> spec : harness/c09 records (a) random span forests under random sampler compositions
-               with the SDK's own random ID generator, (b) ratio-sampler decisions for random
-               trace IDs x random ratios in and beyond [0,1], (c) ID statistics of 10^5..10^6
-               spans started from several goroutines, (d) sampled shares; TLC validates the
-               recordings against SamplingModel / RatioBits via Trace_Sampling.tla.
+               on 1..8 providers with the SDK's own random ID generators and parent contexts
+               with arbitrary flag bytes, (b) ratio-sampler decisions for random trace IDs x
+               random ratios in and beyond [0,1], (c) ID statistics of 10^5..10^6 spans started
+               from several goroutines on one / 2..8 / thousands of providers created up-front,
+               staggered, concurrently, in tight loops, (d) sampled shares, (e) spans with any
+               flags byte handed to the simple / batch processor, (f) volume scenarios: sampled
+               and unsampled spans ended from several goroutines on a batch processor while
+               other goroutines call ForceFlush; TLC validates the recordings against
+               SamplingModel / RatioBits via Trace_Sampling.tla.
 """
 import json
 import os
@@ -65,8 +75,16 @@ def tla_set(items):
     return "{" + ",\n  ".join(tla(x) for x in out) + "}", len(out)
 
 
-def rc(valid=True, remote=True, sampled=True, ts="", hi=3):
-    return {"valid": valid, "remote": remote, "sampled": sampled, "ts": ts, "hi": hi}
+def rc(valid=True, remote=True, sampled=True, ts="", hi=3, fl=None):
+    """a span context that can be put into a context; fl = trace-flags byte (default: 01 / 00)"""
+    if fl is None:
+        fl = 1 if sampled else 0
+    return {"valid": valid, "remote": remote, "fl": fl, "ts": ts, "hi": hi}
+
+
+FLAGS = [0x00, 0x01, 0x02, 0x03, 0x80, 0x81, 0xFF]       # FlagDomain of SamplingModel.tla
+FL_S = [0x01, 0x03, 0x81, 0xFF]                          # sampled bit set
+FL_U = [0x00, 0x02, 0x80, 0xFE]                          # sampled bit clear
 
 
 DECISIONS = ["Drop", "RecordOnly", "RecordAndSample"]
@@ -103,29 +121,59 @@ def configs(tier):
     th = tier == "thorough"
     cfgs = []
     # A: forests -- every shape of <= 3 (4) spans, ends interleaved, WithNewRoot, a few samplers
-    rem_a = [rc(sampled=True, ts="p", hi=3), rc(sampled=False, ts="", hi=4), rc(valid=False, sampled=True, ts="p", hi=0),
-             rc(remote=False, sampled=False, ts="p", hi=3)]
+    rem_a = [rc(fl=0x03, ts="p", hi=3), rc(fl=0x00, ts="", hi=4), rc(valid=False, fl=0x81, ts="p", hi=0),
+             rc(remote=False, fl=0x02, ts="p", hi=3)]
     samp_a = [{"k": "default"}, pb(ratio(4)), ON, custom("RecordOnly", "replace"),
               pb(OFF, rs=custom("RecordOnly", "inherit"), rns=ON, ls=ratio(4), lns=custom("RecordAndSample", "empty"))]
     cfgs.append(dict(name="forest", samplers=samp_a, remotes=rem_a, his=[3, 4], maxspans=3,
-                     newroot=["local", "remote"] if th else ["local"], endmode="any", ctxuntil=3 if th else 2))
+                     newroot=["local", "remote"] if th else ["local"], endmode="any", ctxuntil=3 if th else 2,
+                     reps="0,1,2,3"))
     if th:
         cfgs.append(dict(name="forest4", samplers=[pb(ratio(4)), custom("RecordOnly", "inherit"),
                                                     pb(OFF, rs=ratio(4), rns=ON, ls=OFF, lns=ON)],
                          remotes=rem_a[:3], his=[3, 4], maxspans=4, newroot=["local"], endmode="any", ctxuntil=2))
     # B: sampler compositions x every parent context x every trace-ID class
-    rem_b = [rc(valid=True, remote=r, sampled=s, ts=t, hi=h) for r in (True, False) for s in (True, False)
-             for t in ("", "p") for h in (3, 4)]
-    rem_b += [rc(valid=False, remote=r, sampled=s, ts=t, hi=0) for r in (True, False) for s in (True, False)
-              for t in ("", "p")]
+    # quick: every (remote, sampled, tracestate, class) combination, the flags byte rotating through the
+    # four sampled / four unsampled bytes (latin square); thorough: the full product with FlagDomain
+    if th:
+        rem_b = [rc(remote=r, fl=f, ts=t, hi=h) for r in (True, False) for f in FLAGS for t in ("", "p") for h in (3, 4)]
+        rem_b += [rc(valid=False, remote=r, fl=f, ts=t, hi=0) for r in (True, False) for f in (0, 1, 2, 3, 0xFF)
+                  for t in ("", "p")]
+    else:
+        rem_b = [rc(remote=r, fl=(FL_S if s else FL_U)[(2 * ti + hi_i + ri) % 4], ts=t, hi=h)
+                 for ri, r in enumerate((True, False)) for s in (True, False)
+                 for ti, t in enumerate(("", "p")) for hi_i, h in enumerate((3, 4))]
+        rem_b += [rc(valid=False, remote=r, fl=(FL_S if s else FL_U)[(ti + 2 * ri) % 4], ts=t, hi=0)
+                  for ri, r in enumerate((True, False)) for s in (True, False) for ti, t in enumerate(("", "p"))]
     cfgs.append(dict(name="samplers", samplers=sampler_family(tier), remotes=rem_b, his=list(range(8)), maxspans=2,
                      newroot=["none", "local", "remote"] if th else ["local"], endmode="any" if th else "none",
-                     ctxuntil=2 if th else 1))
+                     ctxuntil=2 if th else 1, reps="0,1,2,3" if th else "0,1,2"))
+    # F: trace flags beyond {00,01}: every byte of FlagDomain on remote and non-remote (hand-built / wrapper)
+    # parents, SDK children of such parents as local parents, spans ended (simple + batch processor), for the
+    # parent-based family (each position distinguishable) and the flag-copying base samplers
+    rem_f = [rc(remote=r, fl=f, ts="p" if (i + j) % 2 else "", hi=h) for i, r in enumerate((True, False))
+             for j, f in enumerate(FLAGS) for h in (3, 4)]
+    rem_f += [rc(valid=False, remote=True, fl=f, ts="p", hi=0) for f in (0x02, 0x03, 0x81, 0xFF)]
+    samp_f = [{"k": "default"}, pb(ON), pb(OFF), pb(ratio(4)), pb(OFF, rs=OFF, rns=ON, ls=OFF, lns=ON),
+              pb(custom("RecordOnly", "replace"), rs=custom("RecordAndSample", "empty"), rns=custom("RecordOnly", "inherit"),
+                 ls=custom("Drop", "replace"), lns=custom("RecordAndSample", "inherit")),
+              pb(ON, rs=ratio(4)), pb(ON, rns=ratio(4)), pb(OFF, ls=ratio(4)), pb(OFF, lns=ratio(4)),
+              ON, OFF, ratio(4), custom("RecordOnly", "inherit"), custom("RecordAndSample", "replace"), custom("Drop", "empty"),
+              env("parentbased_always_off", "unset"), env("parentbased_traceidratio", "k4")]
+    cfgs.append(dict(name="flags", samplers=samp_f, remotes=rem_f, his=[3, 4], maxspans=3 if th else 2,
+                     newroot=["local", "remote"] if th else ["local"], endmode="any", ctxuntil=1, reps="0,1,2,3"))
+    # P: several providers in one process, created before / after / between the spans of the others; children
+    # of another provider's span; uniqueness over the union (rep 3: the SDK's default generators)
+    rem_p = [rc(fl=0x03, ts="p", hi=3), rc(valid=False, fl=0x01, hi=0)]
+    cfgs.append(dict(name="providers", samplers=[{"k": "default"}, pb(ratio(4)), custom("RecordOnly", "replace")],
+                     remotes=rem_p, his=[3, 4], maxspans=4 if th else 3, newroot=[], endmode="none", ctxuntil=4,
+                     nprov=3 if th else 2, reps="0,1,2,3"))
     # C: sampler from OTEL_TRACES_SAMPLER / OTEL_TRACES_SAMPLER_ARG
     rem_c = [rc(sampled=True, ts="p", hi=3), rc(sampled=False, ts="p", hi=4), rc(valid=False, sampled=True, hi=0),
              rc(remote=False, sampled=True, hi=4), rc(remote=False, sampled=False, hi=3)]
     cfgs.append(dict(name="env", samplers=[env(n, a) for n in ENV_NAMES for a in ENV_ARGS], remotes=rem_c,
-                     his=list(range(8)) if th else [0, 3, 4, 7], maxspans=2, newroot=[], endmode="none", ctxuntil=1))
+                     his=list(range(8)) if th else [0, 3, 4, 7], maxspans=2, newroot=[], endmode="none", ctxuntil=1,
+                     reps="0,1,2,3"))
     return cfgs
 
 
@@ -133,7 +181,26 @@ def defines(c):
     s, n = tla_set(c["samplers"])
     c["nsamplers"] = n
     return {"SAMPLERS": s, "REMOTES": tla(c["remotes"]), "HIS": tla(set(c["his"])), "NEWROOTFOR": tla(set(c["newroot"])),
-            "MAXSPANS": c["maxspans"], "ENDMODE": c["endmode"], "CTXUNTIL": c["ctxuntil"]}
+            "MAXSPANS": c["maxspans"], "ENDMODE": c["endmode"], "CTXUNTIL": c["ctxuntil"],
+            "NPROV": c.get("nprov", 1), "GENMODE": c.get("genmode", "own")}
+
+
+def exp_clause(field, want, got, span):
+    """which clause of the statement a differing exporter count belongs to (classification only)"""
+    try:
+        w, g = want[span - 1][field], got[span - 1][field]
+    except Exception:
+        return field
+    if g < w:
+        return "sampled-not-exported"
+    return "unsampled-exported" if w == 0 else "exported-more-than-once"
+
+
+def clause_of(why, want, got, span):
+    if why in ("expS", "expB"):
+        return exp_clause(why, want, got, span)
+    return {"tidOK": "ids", "sidOK": "ids", "tr": "ids", "hi": "ids", "parOK": "ids", "sampled": "flag", "flx": "flag",
+            "rec": "recording", "onStart": "recording", "onEnd": "recording", "ts": "tracestate"}.get(why, why)
 
 
 def add_counters(ctx, res):
@@ -149,19 +216,28 @@ def run(ctx):
     ctx.tlc(S, "MC_Ratio", "MC_Ratio.cfg", name="ratio-theorems")
     # ---- vacuity: every action of Sampling.tla fires (small instance, -coverage)
     cov = dict(name="coverage", samplers=[{"k": "default"}, custom("RecordOnly", "replace"), env("traceidratio", "k4")],
-               remotes=[rc(ts="p"), rc(valid=False, ts="p", hi=0)], his=[3, 4], maxspans=2, newroot=["local"],
-               endmode="any", ctxuntil=2)
+               remotes=[rc(ts="p", fl=0x03), rc(valid=False, ts="p", hi=0, fl=0x81)], his=[3, 4], maxspans=2, newroot=["local"],
+               endmode="any", ctxuntil=2, nprov=2)
     r = ctx.tlc(S, "MC_Sampling", "MC_Sampling.cfg", defines=defines(cov), workers=1, coverage=True, name="coverage",
                 count=False)
     ctx.extra["zero_coverage_actions"] = r["zero_cov"]
     if r["zero_cov"]:
         ctx.note_inconclusive("actions never taken in Sampling.tla: %s" % r["zero_cov"])
+    # ---- model-level demonstration: generators that replay one shared stream (IDs <<0,k>> instead of <<p,k>>)
+    # violate UniqueInProcess -- TLC must find it (the invariant is not vacuous for several providers)
+    sh = dict(name="providers-shared-stream", samplers=[ON], remotes=[rc()], his=[3], maxspans=2, newroot=[], endmode="none",
+              ctxuntil=2, nprov=2, genmode="shared")
+    r = ctx.tlc(S, "MC_Sampling", "MC_Sampling.cfg", defines=defines(sh), workers=1, name=sh["name"], must_pass=False,
+                count=False)
+    ctx.extra["shared_stream_refuted_by"] = r["violated"]
+    if r["violated"] != "Inv":
+        ctx.note_inconclusive("TLC did not refute the shared-stream generator model (expected a violation of Inv): %s" % r["out"])
     # ---- spec -> code
     edges_total = 0
     for c in configs(ctx.tier):
         r = ctx.tlc(S, "MC_Sampling", "MC_Sampling.cfg", defines=defines(c), want_edges=True, name=c["name"], timeout=3000)
         out = os.path.join(ctx.work, "replay-%s.json" % c["name"])
-        ctx.run([binp, "replay", "-edges", r["edges_file"], "-reps", "0,1,2", "-par", str(max(2, min(8, (os.cpu_count() or 4) // 2))),
+        ctx.run([binp, "replay", "-edges", r["edges_file"], "-reps", c.get("reps", "0,1,2"), "-par", str(max(2, min(8, (os.cpu_count() or 4) // 2))),
                  "-out", out], timeout=3000)
         res = json.load(open(out))
         edges_total += res["evaluations"]
@@ -174,7 +250,9 @@ def run(ctx):
         for m in res["mismatches"]:
             case = m.get("case") or {}
             sig = {"dir": "replay", "cfg": c["name"], "why": case.get("why"), "samplerKind": case.get("samplerKind"),
-                   "parent": case.get("parent")}
+                   "parent": case.get("parent"),
+                   "clause": clause_of(case.get("why"), m.get("want"), m.get("got"), case.get("span") or 0),
+                   "idgen": "default" if (case.get("rep") or 0) >= 3 else "scripted"}
             ctx.violation(sig, replay={"acts": (m.get("path") or []) + ([m["act"]] if m.get("act") else []),
                                        "sampler": case.get("sampler"), "rep": case.get("rep"), "span": case.get("span"),
                                        "want": m.get("want"), "got": m.get("got"), "detail": m.get("detail")})
@@ -182,10 +260,12 @@ def run(ctx):
             ctx.note_inconclusive(msg)
     ctx.extra["edges_replayed"] = edges_total
     # ---- code -> spec
-    nf, nr, nid, gor, share = (6000, 20000, 1000000, 16, 1 << 20) if thorough else (600, 2000, 200000, 8, 1 << 17)
+    nf, nr, nid, gor, share, nfl, npr = ((6000, 20000, 1000000, 16, 1 << 20, 400, 600) if thorough
+                                         else (800, 2000, 200000, 8, 1 << 17, 30, 90))
     parts = []
     for sub, args in (("forest", ["-n", str(nf)]), ("ratio", ["-n", str(nr)]),
-                      ("ids", ["-n", str(nid), "-g", str(gor), "-share", str(share)])):
+                      ("ids", ["-n", str(nid), "-g", str(gor), "-share", str(share)]),
+                      ("flush", ["-n", str(nfl), "-procs", str(npr)])):
         tf = os.path.join(ctx.work, "trace-%s.ndjson" % sub)
         rf = os.path.join(ctx.work, "res-%s.json" % sub)
         ctx.run([binp, sub] + args + ["-out", tf, "-res", rf], timeout=3000)
@@ -212,6 +292,16 @@ def run(ctx):
         if v.get("kind") == "forest":
             sig["parent"] = v.get("par")
             sig["samplerKind"] = rec.get("sampler", {}).get("k")
+            sig["clause"] = v.get("clause")
+            pfl = v.get("pfl", -1)
+            sig["parentFlags"] = ("local-span" if pfl == -2 else "none" if pfl < 0 else "00/01" if pfl <= 1
+                                  else "sampled+other-bits" if pfl % 2 else "unsampled+other-bits")
+            sig["providers"] = "one" if v.get("nprov", 1) == 1 else "several"
+        if v.get("kind") == "ids":
+            sig["src"] = v.get("src")
+        if v.get("kind") == "proc":
+            sig["proc"] = v.get("proc")
+            sig["flags"] = "00/01" if v.get("fl", 0) <= 1 else "other-bits"
         if v.get("kind") == "ratio":
             sig["class"] = v.get("class")
         ctx.violation(sig, replay={"viol": {k: x for k, x in v.items() if k not in ("want", "got")}, "line": rec,
@@ -223,6 +313,13 @@ def run(ctx):
         "exact ratio threshold is checked up to the rounding of r*2^63 (one trace-ID cell of width 2^-63 left open)",
         "share-tracks-ratio is a 6-sigma binomial bound (false alarm probability < 1e-8 per run)",
         "NaN ratio is unconstrained (not a ratio); invalid parent contexts carrying a tracestate may keep or drop it",
+        "only the sampled bit of a started span's flags is constrained; its other bits may be any sub-mask of the other "
+        "bits of the context it was started under (copied, partly or wholly cleared), never invented",
+        "ID uniqueness over several providers is bound to the SDK's default generators by rep 3 of the edge replay "
+        "(trace-ID class by rejection) and by the Ids/Forest recordings; 64-bit birthday collisions (< 1e-7 per run) ignored",
+        "export under concurrent ForceFlush: only the end-to-end clause (set of exported spans == sampled spans ended before the "
+        "final ForceFlush, queue cannot overflow, scenarios with drops or flush errors set aside); interleaving-exact "
+        "exactly-once is C01",
     ]
     ctx.extra["rule"] = ("edges: every transition of Sampling.tla for the listed configs x 3 low-bit classes; "
                          "traces: seeded random forests / ratio matrices / ID runs; a case is distinct by "
